@@ -651,7 +651,14 @@ impl Sparse<f64> {
             r -= s.clone();
 
             resid = r.norm_2() / normb;
-            if resid <= tol { return Ok( i ); } 
+            if resid <= tol {
+                // After a near-breakdown of the Lanczos process the recurrence residual can lose
+                // touch with b - A x: success is only reported on the true residual, otherwise
+                // the iteration carries on from it
+                r = b.clone() - self.multiply( x );
+                resid = r.norm_2() / normb;
+                if resid <= tol { return Ok( i ); }
+            }
         }
         Err(resid)
     }
